@@ -466,8 +466,16 @@ func ruleR10d(c *Ctx) {
 		}
 		// the arm, or the function the arm hands the plural node to (writePluralFingerprint(buf, part))
 		armScope := &ast.BlockStmt{}
+		fwdBodies := map[ast.Node]bool{}
+		for _, hd := range c.allFuncDecls("soymsg") {
+			if hfn, ok := winfo.Defs[hd.Name].(*types.Func); ok {
+				if _, isFwd := forwards[hfn]; isFwd {
+					fwdBodies[hd.Body] = true // counted through the brace setting handed to it, below
+				}
+			}
+		}
 		for _, nd := range c.nodeWithHelpers("soymsg", cc, 1) {
-			if nd == ast.Node(wf.Body) {
+			if nd == ast.Node(wf.Body) || fwdBodies[nd] {
 				continue
 			}
 			if st, ok := nd.(ast.Stmt); ok {
